@@ -503,6 +503,12 @@ def id_list(draw, existing, unknown_pool, faults, min_size=1, max_size=4, degene
             bad = draw(st.sampled_from(['unknown', 'unknown', 'blank']))
             val = '' if bad == 'blank' else draw(st.sampled_from(
                 [u for u in unknown_pool if u not in existing and u not in ids] or ['ZZ']))
+            if bad == 'unknown' and ids and draw(st.integers(0, 3)) == 0:
+                # an unknown ID that only LOOKS like one already listed: the same text with padding
+                base = draw(st.sampled_from([i for i in ids if isinstance(i, str) and i.strip()] or ['ZZ']))
+                val = draw(st.sampled_from([' ' + base, base + ' ', base + '\n']))
+                if val in existing:
+                    continue
             if val != '' and val in ids:
                 continue
             ids.insert(draw(st.integers(0, len(ids))), val)
